@@ -13,7 +13,7 @@ TOOLS=$(dirname $(rustc +nightly --print target-libdir))/bin
 OUT=/verif/build/coverage; rm -rf $OUT; mkdir -p $OUT/prof
 export CARGO_NET_OFFLINE=true CARGO_TARGET_DIR=/verif/build/cov-target
 export RUSTFLAGS="-C instrument-coverage"
-(cd harness/fast && cargo +nightly build --offline -q)
+(cd harness/fast && LLVM_PROFILE_FILE=$OUT/prof/build-%p.profraw cargo +nightly build --offline -q)
 H=$CARGO_TARGET_DIR/debug/harness
 unset RUSTFLAGS
 python3 - "$H" "$OUT" <<'PY'
